@@ -82,7 +82,9 @@ func honestCert(inst uint64, prevHead *gpbft.TipSet, cur, next gpbft.PowerEntrie
 	return keys.Cert(vfix.Network, inst, chain, cur, next, vfix.MinimalQuorum(cur))
 }
 
-func genesisTipset(pt gpbft.PowerEntries) *gpbft.TipSet { return vfix.TipSet("gen", 0, vfix.TableCID(pt)) }
+func genesisTipset(pt gpbft.PowerEntries) *gpbft.TipSet {
+	return vfix.TipSet("gen", 0, vfix.TableCID(pt))
+}
 
 // ---- reference model ----------------------------------------------------------------------------------
 
